@@ -219,7 +219,7 @@ def count_skeletons(n):
 
 # ---------------------------------------------------------------- F2: selection bundles
 
-def family_f2(rng, count, nmax=4, max_shared=3, max_eventless=2, prios=(-1, 0, 1, 2), big=0.35, orth=0.5):
+def family_f2(rng, count, nmax=4, max_shared=3, max_eventless=2, prios=(-1, 0, 1, 2, 10, -2, 9), big=0.35, orth=0.5):
     """Skeletons with n<=nmax; on each transition-capable state up to `max_shared` transitions on the
     one shared event 1 and up to `max_eventless` eventless ones, random priorities, oracle guards.
     Eventless transitions are always oracle-guarded (otherwise they loop forever)."""
@@ -353,6 +353,86 @@ def family_nested(rng, count, max_oracle=5):
         c['events'] = [1, 2, 3, 4]
         assert wf(c), c
         out.append(c)
+    return out
+
+
+def family_fanout(rng, count, max_oracle=2):
+    """Concurrent transitions that each stay inside their own region of one orthogonal state and enter, from
+    outside, orthogonal states nested in that region (targets: basic states deep inside them).  Several
+    transitions fire in one macro step without conflict, and all but the last leave an incomplete orthogonal
+    state behind that must be completed before the next transition starts."""
+    out = []
+    while len(out) < count:
+        kind, parent = [], []
+
+        def add(k, p):
+            kind.append(k)
+            parent.append(p)
+            return len(kind)
+
+        wrap = rng.random() < 0.3
+        if wrap:
+            r0 = add('compound', 0)
+            add('basic', r0)
+            top = add('orthogonal', r0)
+        else:
+            top = add('orthogonal', 0)
+        regs = []
+        for _ in range(rng.randint(2, 3)):
+            reg = add('compound', top)
+            plain = [add('basic', reg) for _ in range(rng.randint(1, 2))]
+            deep = []
+            if rng.random() < 0.75:
+                y = add('orthogonal', reg)
+                for _ in range(2):
+                    if rng.random() < 0.5:
+                        cc = add('compound', y)
+                        deep.append(add('basic', cc))
+                        if rng.random() < 0.3:
+                            deep.append(add('basic', cc))
+                    else:
+                        deep.append(add('basic', y))
+            regs.append((reg, plain, deep))
+        n = len(kind)
+        if n > 14 or not any(d for (_, _, d) in regs):
+            continue
+        initial = [0] * n
+        for (reg, plain, deep) in regs:
+            initial[reg - 1] = plain[0]
+        for s in range(1, n + 1):
+            if kind[s - 1] == 'compound' and not initial[s - 1]:
+                initial[s - 1] = rng.choice([i + 1 for i in range(n) if parent[i] == s])
+        perm = list(range(1, n + 1))
+        rng.shuffle(perm)
+        m = dict(zip(range(1, n + 1), perm))
+        m[0] = 0
+        k2, p2, i2 = [None] * n, [0] * n, [0] * n
+        for s in range(1, n + 1):
+            k2[m[s] - 1] = kind[s - 1]
+            p2[m[s] - 1] = m[parent[s - 1]]
+            i2[m[s] - 1] = m[initial[s - 1]]
+        c = new_chart(k2, p2, i2, [0] * n)
+        trans, g = [], 0
+        for (reg, plain, deep) in regs:
+            inside = plain + deep
+            for s in plain:
+                tgs = deep if deep and rng.random() < 0.8 else inside
+                guarded = rng.random() < 0.2 and g < max_oracle
+                g += guarded
+                trans.append(mk_trans(m[s], m[rng.choice(tgs)], 1, 0, 'oracle' if guarded else 'none',
+                                      act=desc(incx=rng.choice([0, 1]))))
+            for s in deep:
+                if rng.random() < 0.6:
+                    trans.append(mk_trans(m[s], m[rng.choice(plain)], 2))
+                if rng.random() < 0.3:
+                    trans.append(mk_trans(m[s], m[rng.choice(inside)], 1))
+        c['trans'] = [t for i, t in enumerate(trans) if t not in trans[:i]]
+        for s in range(1, n + 1):
+            if rng.random() < 0.5:
+                c['entry'][s - 1] = desc(incx=rng.choice([0, 1]))
+        c['events'] = [1, 2, 3]
+        if wf(c):
+            out.append(c)
     return out
 
 
@@ -526,7 +606,7 @@ def family_f3(rng, count, nmin=5, nmax=8, tmin=4, tmax=10, nev=3, time_guards=Fa
                     snd.append((rng.randint(1, nev), rng.choice([0, 0, 1, 2]), rng.choice([0, 7])))
                 act = desc(incx=rng.choice([0, 1]), sends=snd,
                            nots=[1] if rng.random() < 0.15 else [])
-            t = mk_trans(s, tg, ev, rng.choice([0, 0, 0, 1, -1, 2]), gk, ga, act)
+            t = mk_trans(s, tg, ev, rng.choice([0, 0, 0, 1, -1, 2, 10, -2]), gk, ga, act)
             if contracts and rng.random() < 0.4:
                 t['pre'], t['post'], t['inv'] = rng.choice([0, 1]), rng.choice([0, 1, 2]), rng.choice([0, 1])
             if t not in trans:
